@@ -162,13 +162,13 @@ pub fn report_violation(run: u64, original_ops: usize, sc: &Scenario, v: &Violat
     path.display().to_string()
 }
 
-pub fn hang_exit(run: u64, sc: Option<&Scenario>) -> ! {
+pub fn hang_exit(run: u64, sc: Option<(&Scenario, usize, bool)>) -> ! {
     let c = ctx();
     let st = stage();
     let dir = c.verif.join("replays");
     let _ = std::fs::create_dir_all(&dir);
     let path = dir.join(format!("{}-{}-{}-{}-hang.json", c.prop, st, c.seed, run));
-    if let Some(sc) = sc {
+    if let Some((sc, original_ops, minimised)) = sc {
         let v = Violation {
             property: c.prop.clone(),
             class: format!("{}/hang", c.prop),
@@ -178,7 +178,7 @@ pub fn hang_exit(run: u64, sc: Option<&Scenario>) -> ! {
             got: vec!["no progress within the hang limit (300 s by default)".into()],
             oracle: "watchdog over the per-run heartbeat".into(),
         };
-        let rf = ReplayFile { property: c.prop.clone(), class: v.class.clone(), seed: c.seed, run, minimised: false, original_ops: sc.ops.len(), scenario: sc.clone(), violation: v, replay_cmd: format!("/verif/check replay {}", path.display()) };
+        let rf = ReplayFile { property: c.prop.clone(), class: v.class.clone(), seed: c.seed, run, minimised, original_ops, scenario: sc.clone(), violation: v, replay_cmd: format!("/verif/check replay {}", path.display()) };
         let _ = std::fs::write(&path, serde_json::to_string_pretty(&rf).unwrap());
         println!("VIOLATION property={} replay={}", c.prop, path.display());
         std::process::exit(1);
